@@ -79,7 +79,7 @@ Fire(o) ==
     [] OTHER -> FALSE
 
 TraceInit == Init /\ tid \in 1..Len(Traces) /\ l = 1
-TraceNext == /\ l <= Len(Steps) /\ AllOK
+TraceNext == /\ l <= Len(Steps) /\ (AllOK = TRUE)
              /\ Fire(Steps[l].op)
              /\ l' = l + 1 /\ tid' = tid
 TraceSpec == TraceInit /\ [][TraceNext]_tvars
